@@ -509,7 +509,7 @@ def clip(
 
     if a_max is not None:
         a = minimum(a_max, a, out=out, constant=constant)
-    return mg.astensor(a)
+    return mg.astensor(a, constant=constant)
 
 
 @ufunc_creator(MatMul)
